@@ -24,14 +24,17 @@ def main():
         traceback.print_exc()
         print("MACHINERY-FAILURE property=%s (import)" % prop)
         return 2
+    rp = None
+    if a.replay:
+        # a replay file is what a VIOLATION line points to: the check is re-run with the recorded tier and seed (everything a check
+        # does is a function of those two and of the tree) and the verdict is restricted to the recorded violation class
+        import json
+        rp = json.load(open(a.replay))
+        a.tier, a.seed = rp.get("tier", a.tier), int(rp.get("seed", a.seed))
     ctx = Ctx(prop, a.tier, a.seed)
     ctx.only = set(a.only.split(",")) if a.only else None
     ctx.selftest = a.selftest
-    if a.replay:
-        import json
-        ctx.replay = json.load(open(a.replay))
-    else:
-        ctx.replay = None
+    ctx.replay = rp
     try:
         mod.run(ctx)
         if a.tier == "thorough" and not a.replay and not a.only:
@@ -73,6 +76,10 @@ def main():
         print("MACHINERY-FAILURE property=%s (driver exception)" % prop)
         ctx.finish(machinery_failed=True)
         return 2
+    if rp is not None:
+        hit = [v for v in ctx.violations if v[0] == rp.get("key")]
+        print("REPLAY %s: the recorded violation class %s %s on this tree" % (a.replay, rp.get("key"), "REPRODUCES" if hit else "does not reproduce"))
+        ctx.violations = hit
     return ctx.finish()
 
 
